@@ -33,7 +33,7 @@ UNIVERSE = {
                       ("min", (1e19,)), ("max", (2e19,)), ("min", (-2e19,)), ("max", (-1e19,)), ("max", (1e300,)), ("precision", (15,))]},
     "str": {"values": [None, "ab", ""],
             "ops": [("len", (2,)), ("len", (0,)), ("len", (1, ...)), ("len", (3, ...)), ("len", (..., 2)), ("len", (..., 1)),
-                    ("len", (1, 3)), ("len", (0, ...)), ("len", (..., 0)), ("len", (0, 0)), ("alphabet", ("ab",)), ("alphabet", ("a",)), ("contains", ("a",)), ("contains", ("z",)),
+                    ("len", (1, 3)), ("len", (0, ...)), ("len", (..., 0)), ("len", (0, 0)), ("alphabet", ("ab",)), ("alphabet", ("a",)), ("alphabet", ("",)), ("contains", ("",)), ("len", (1, 1)), ("len", (2, ...)), ("contains", ("a",)), ("contains", ("z",)),
                     ("regex", ("a",)), ("regex", ("^z",))]},
     "list": {"values": [None, [schema.int, schema.str], [schema.int, ...], schema.int],
              "ops": [("len", (2,)), ("len", (1,)), ("len", (1, ...)), ("len", (3, ...)), ("len", (..., 2)), ("len", (..., 1)),
